@@ -39,6 +39,12 @@ func (ex *Exec) bigFitNote(st *State, cond *Term) {
 	if v, ok := cond.BoolVal(); ok && v {
 		return
 	}
+	if n := len(st.Asserts); n > 0 && st.Asserts[n-1].Label == "zz:bigW" && st.Asserts[n-1].PCLen == len(st.PC) {
+		last := st.Asserts[n-1]
+		last.Cond = And(last.Cond, cond)
+		st.Asserts = append(append([]AssertRec(nil), st.Asserts[:n-1]...), last)
+		return
+	}
 	st.Asserts = append(st.Asserts, AssertRec{Label: "zz:bigW", Cond: cond, PCLen: len(st.PC)})
 }
 
@@ -366,10 +372,19 @@ func init() {
 	regBig("FillBytes", func(ex *Exec, st *State, fn *ssa.Function, args []Value, depth int) []Value {
 		a := ex.bigAbs(ex.bigLoad(st, args[0]))
 		buf := args[1].(SliceV)
-		n := ex.bigByteLen(st, a)
-		if n > buf.Len {
+		// fits iff abs < 256^len: one decision, no fork over the byte length
+		var fits *Term
+		if ex.IntMode {
+			fits = ICmp("<", a, IntC(pow2(8*buf.Len)))
+		} else if 8*buf.Len >= ex.BigW {
+			fits = True()
+		} else {
+			fits = BVCmp("bvult", a, BVC(pow2(8*buf.Len), ex.BigW))
+		}
+		if !ex.decide(st, fits) {
 			panic(goPanic{Val: IfaceV{T: stringPanicType, V: StrV{S: "math/big: buffer too small to fit value"}}})
 		}
+		n := buf.Len
 		src := ex.bigBytes(st, a, n, buf.Len)
 		el := ex.sliceElems(st, src)
 		for i, v := range el {
@@ -411,8 +426,7 @@ func init() {
 			st.Assume(Eq(Eq(n, IntC64(0)), Eq(a, IntC64(0))))
 			return []Value{SliceV{SymLen: n}}
 		}
-		nb := ex.bigByteLen(st, a)
-		nw := (nb + 7) / 8
+		nw := ex.bigUnitLen(st, a, 64)
 		// nb fixes the byte length; the word count follows
 		uk := IntKind{64, false}
 		vals := make([]Value, nw)
@@ -523,6 +537,23 @@ func (ex *Exec) bigDivRem(st *State, a, b *Term, euclid bool) (q, r *Term) {
 		return tdiv(a, b), trem(a, b)
 	}
 	W := ex.BigW
+	// divisor a constant power of two: shifts and masks instead of a W-bit divider
+	if b.IsConst() {
+		bv := toSigned(b.Val, W)
+		if bv.Sign() > 0 && new(big.Int).And(bv, new(big.Int).Sub(bv, bigOne)).Sign() == 0 {
+			k := bv.BitLen() - 1
+			kk := BVC64(uint64(k), W)
+			mask := BVC(new(big.Int).Sub(bv, bigOne), W)
+			fq := BV2("bvashr", a, kk) // floor quotient
+			fr := BV2("bvand", a, mask) // Euclidean remainder
+			if euclid {
+				return fq, fr
+			}
+			// truncated: for negative a with non-zero remainder, q = fq+1, r = fr - 2^k
+			adj := And(BVCmp("bvslt", a, BVC(bigZero, W)), Not(Eq(fr, BVC(bigZero, W))))
+			return Ite(adj, BV2("bvadd", fq, BVC(bigOne, W)), fq), Ite(adj, BV2("bvsub", fr, b), fr)
+		}
+	}
 	// min / -1 overflow in W bits
 	minv := BVC(new(big.Int).Neg(pow2(W-1)), W)
 	ex.bigFitNote(st, Not(And(Eq(a, minv), Eq(b, BVC(big.NewInt(-1), W)))))
